@@ -9,6 +9,8 @@ C16 - wait never fails and stops at the first restart-semantics match.
     input up to length L over P's bytes + Z + one outsider on the abstract machine (and sampled on the C binary) and
     compared with a reference computed from the restart automaton: where the wait completes, what follows, handler
     never entered before completion, end() during the wait reports FAIL without entering the handler.
+    T3 / T4 are T1 / T2 with the lead-in `/[^S]+/;` directly in front of the wait (S = the pattern's first bytes plus one byte
+    that cannot start it), so that the wait is entered from a state that spells out its own error symbols.
 """
 import glob
 import json
@@ -81,8 +83,20 @@ def structural(shard, pat, argv):
     return None
 
 
-def reference(auto, word, template):
-    """Expected (code, offset, m) after feeding `word` byte per call; offset = *start afterwards (indirect)."""
+def reference(auto, word, template, lead=None):
+    """Expected (code, offset, m) after feeding `word` byte per call; offset = *start afterwards (indirect).
+    Templates T3 / T4 put the lead-in /[^S]+/ (S = `lead`) in front of the wait of T1 / T2."""
+    if template in ("T3", "T4"):
+        inner = "T1" if template == "T3" else "T2"
+        if word and word[0] in lead:
+            return (FAIL, 0, 0, "lead-fail") if template == "T3" else (DONE, 0, 1, "lead-handler")
+        j = next((i for i, b in enumerate(word) if b in lead), None)
+        if j is None:
+            return (OK, len(word), 0, "lead-incomplete")
+        base = reference(auto, word[j:], inner)
+        if base[0] == OK:
+            return (OK, len(word), 0, base[3])
+        return (base[0], base[1] + j, base[2], base[3])
     k = completion_index(auto, word)
     n = len(word)
     if k is None:
@@ -100,10 +114,26 @@ def check_pattern(shard, pat, template, argv, max_len, do_c=True):
     core = ir.match_core(pat)
     auto = rx.Auto(core)
     ptxt = ir.print_match(pat)
+    lead = None
+    if template in ("T3", "T4"):
+        # lead-in /[^S]+/ directly in front of the wait; S = the pattern's first bytes plus one byte (x) that cannot start it
+        fs = sorted(rx.first(core))
+        if len(fs) > 6 or 0x5a in fs or any(not (0x21 <= b < 0x7f) or chr(b) in "\\]^-[/" for b in fs):
+            template = "T1" if template == "T3" else "T2"
+        else:
+            extra = next(b for b in (0x78, 0x79, 0x71) if b not in fs)
+            lead = frozenset(fs) | {extra}
+            ltxt = "/[^%s]+/" % "".join(chr(b) for b in sorted(lead))
     if template == "T1":
         src = "out int m = 0;\nparser {\n    wait %s;\n    \"Z\";\n}\n" % ptxt
-    else:
+    elif template == "T2":
         src = "out int m = 0;\nparser {\n    try {\n        wait %s;\n        \"Z\";\n        m = 2;\n    }\n    catch {\n        m = 1;\n    }\n}\n" % ptxt
+    elif template == "T3":
+        src = "out int m = 0;\nparser {\n    %s;\n    wait %s;\n    \"Z\";\n}\n" % (ltxt, ptxt)
+    else:
+        src = ("out int m = 0;\nparser {\n    try {\n        %s;\n        wait %s;\n        \"Z\";\n        m = 2;\n    }\n    catch {\n        m = 1;\n    }\n}\n"
+               % (ltxt, ptxt))
+    shard.event("template:" + template)
     replay = {"source": src, "argv": argv, "pattern": ptxt, "template": template}
     res = structural(shard, pat, [a for a in argv if a != "-feof-support"])
     shard.event("evaluations")
@@ -125,6 +155,13 @@ def check_pattern(shard, pat, template, argv, max_len, do_c=True):
     alphabet = alphabet[:3] + [0x5a]
     outsider = next(b for b in (0x23, 0x7e, 0x00, 0x01) if b not in alphabet and all(b not in s for s in rx.charsets_of(core) if len(s) <= 128))
     alphabet.append(outsider)
+    if lead is not None:
+        for b in sorted(lead):
+            if b not in alphabet:
+                alphabet.append(b)
+        alphabet = alphabet[-6:] if len(alphabet) > 6 else alphabet
+        if outsider not in alphabet:
+            alphabet[0] = outsider
     border = has_border(pat)
     eof = "-feof-support" in argv
     words_for_c = []
@@ -133,7 +170,7 @@ def check_pattern(shard, pat, template, argv, max_len, do_c=True):
         shard.event("evaluations")
         tl = tls[0]
         cfg = cfgs[0]
-        want = reference(auto, word, template)
+        want = reference(auto, word, template, lead)
         code = tl.terminal[1] if tl.terminal else OK
         mval = cfg.vars["m"]
         if tl.terminal is not None and tl.terminal[0] != len(word) - 1 and want[3] in ("incomplete", "complete-awaiting-Z"):
@@ -195,7 +232,7 @@ def check_pattern(shard, pat, template, argv, max_len, do_c=True):
                 raise Failure("c16:c-crash", "rc=%s %s" % (rc, err[-500:]), replay)
             for w, run in zip(words_for_c, crun.parse_log(outp)):
                 calls = [c for c in trace.c_calls(run) if c.kind == "feed"]
-                want = reference(auto, w, template)
+                want = reference(auto, w, template, lead)
                 last = calls[-1]
                 shard.event("evaluations")
                 shard.event("c_runs")
@@ -249,7 +286,7 @@ def pattern(draw):
 @st.composite
 def case_strategy(draw):
     pat = draw(pattern())
-    template = draw(st.sampled_from(["T1", "T2", "T2"]))
+    template = draw(st.sampled_from(["T1", "T2", "T2", "T3", "T4"]))
     argv = [draw(st.sampled_from(gen.OPT_LEVELS))]
     if draw(st.booleans()):
         argv.append("-feof-support")
@@ -291,12 +328,12 @@ def main(ctx):
     quick = ctx.tier == "quick"
     known = tuple(ctx.open_keys)
     ml = 6 if quick else 8
-    ctx.pmap(fixed_worker, [(p, t, ["-O1", "-feof-support"], known, ml) for p in FIXED for t in ("T1", "T2")]
+    ctx.pmap(fixed_worker, [(p, t, ["-O1", "-feof-support"], known, ml) for p in FIXED for t in ("T1", "T2", "T3", "T4")]
              + [(p, "T1", ["-O3"], known, ml) for p in FIXED_O3])
     n = 40 if quick else 600
     stop_at = time.time() + (70 if quick else 1500)
     ctx.pmap(worker, [(ctx.seed * 100003 + i, n, known, stop_at, ml) for i in range(common.NPROC)])
-    ctx.rule = ("case = (wait pattern: literals with internal periodicity, casei, closed regexes, concatenations; template T1/T2; -O level; EOF on/off). "
+    ctx.rule = ("case = (wait pattern: literals with internal periodicity, casei, closed regexes, concatenations; templates T1-T4 (plain / in a try / behind a negated-class lead-in); -O level; EOF on/off). "
                 "Per case: exact product search of the compiled `wait P` against the restart automaton over 256 bytes, then every input up to length %d "
                 "over the pattern's bytes + Z + an outsider through the abstract machine against the reference outcome, end() during the wait, and "
                 "sampled words through the C binary. evaluations = inputs compared. Non-trivial: pattern with a proper border (prefix = suffix) or "
